@@ -186,3 +186,66 @@ def library_chain_edited(U, seed_parts):
         i = int(rng.integers(0, p - 1))
         A[i, i + 1] = 0
     return A
+
+
+def dense_pdag(seed_parts, p_choices=(6, 7), max_und=10):
+    """Dense mixed graph: directed edges along a random order (acyclic by construction), many of them made undirected."""
+    rng = util.rng_for(*seed_parts)
+    p_ = int(p_choices[int(rng.integers(len(p_choices)))])
+    order = [int(v) for v in rng.permutation(p_)]
+    dens, pu = rng.uniform(0.6, 1.0), rng.uniform(0.2, 0.6)
+    out, nund = [0] * p_, 0
+    for a in range(p_):
+        for b in range(a + 1, p_):
+            if rng.random() < dens:
+                out[order[a]] |= 1 << order[b]
+                if nund < max_und and rng.random() < pu:
+                    out[order[b]] |= 1 << order[a]
+                    nund += 1
+    return out
+
+
+def dense_dag(seed_parts, p_choices=(6,), min_density=0.7, max_edges=13):
+    """Dense DAG on 6 nodes with at most max_edges edges (the class oracle enumerates 2^edges orientations)."""
+    rng = util.rng_for(*seed_parts)
+    p_ = int(p_choices[int(rng.integers(len(p_choices)))])
+    for _ in range(50):
+        out = G.random_dag(rng, p_, rng.uniform(min_density, 1.0))
+        if G.n_edges(out) <= max_edges:
+            return out
+    return out
+
+
+def ring_pdag(seed_parts):
+    """A chordless cycle on 4..9 of p nodes (p up to 10), each ring edge undirected or directed (consistently or not),
+    plus optional pendant edges; relabelled.  Long chordless cycles are where reachability shortcuts go wrong."""
+    rng = util.rng_for(*seed_parts)
+    L = int(rng.integers(4, 10))
+    p = L + int(rng.integers(0, 3))
+    p = min(p, 10)
+    L = min(L, p)
+    nodes = [int(v) for v in rng.permutation(p)]
+    out = [0] * p
+    style = int(rng.integers(0, 4))
+    for t in range(L):
+        a, b = nodes[t], nodes[(t + 1) % L]
+        r = rng.random()
+        if style == 0 or (style == 2 and r < 0.6) or (style == 3 and t > 0):      # undirected
+            out[a] |= 1 << b
+            out[b] |= 1 << a
+        elif style == 1 or r < 0.8 or style == 3:                                 # consistently directed around the ring
+            if not (style == 1 and t == L - 1):
+                out[a] |= 1 << b
+            else:
+                out[a] |= 1 << b
+                out[b] |= 1 << a            # last edge undirected: a partly directed ring
+        else:
+            out[b] |= 1 << a
+    for v in nodes[L:]:
+        w = nodes[int(rng.integers(0, L))]
+        if rng.random() < 0.5:
+            out[w] |= 1 << v
+        else:
+            out[v] |= 1 << w
+            out[w] |= 1 << v
+    return out
